@@ -46,6 +46,17 @@ struct OnlySink : public Spectra::verif::Sink
     }
 };
 
+// records the active block size reported by every LobIter event (used to find out after how many iterations a run is partly converged)
+struct BlockSizeRecorder : public Spectra::verif::Sink
+{
+    std::vector<int> sizes;
+    void event(const char* name, const void*, const long long* vals, int n)
+    {
+        if (!strcmp(name, "LobIter") && n >= 2)
+            sizes.push_back((int) vals[1]);
+    }
+};
+
 // =============================================================================================== C16: partial SVD
 template <typename MatrixType, typename Dense>
 static void svd_observe(Line& l, PartialSVDSolver<MatrixType>& svd, const Dense& A, const MatL& AL, const VecL& sref, int ncomp, ll nconv)
@@ -460,7 +471,7 @@ static void mode_lobpcg(const Desc& d)
         // exercised only by the fixed descriptor with kfix=1
         // c % 5 == 2: history 4 below (a second compute() that starts with part of the block already converged) needs k >= 3
         const bool h4 = !d.has("kfix") && (d.has("lobhist") ? d.i("lobhist") == 4 : c % 5 == 2);
-        const int k = d.has("kfix") ? (int) d.i("kfix") : (h4 ? 3 + r.below(2) : 2 + r.below(2));
+        const int k = d.has("kfix") ? (int) d.i("kfix") : (h4 ? 3 + r.below(3) : 2 + r.below(2));
         const int n = 5 * k + 6 + r.below(30);
         const bool withB = c % 2 == 1, withT = c % 3 == 2;
         // sparse symmetric A with well separated smallest eigenvalues: diag(1..n)*g + small symmetric coupling; SPD B: tridiagonal
@@ -586,7 +597,38 @@ static void mode_lobpcg(const Desc& d)
         // left the inner solver throws - the recorded k = 1 finding - so an exception of that second call is not claimed, results are.)
         if (h4)
         {
-            run_call(AL, BL, 6 + 4 * (c % 4) + (c / 5) % 3, tol, withB, 1);
+            // a probe object with the same inputs tells after how many iterations the block is PARTLY converged (2 <= active columns < k)
+            int m1 = 6 + 4 * (c % 4) + (c / 5) % 3;
+            {
+                LOBPCGSolver<double> probe(As, X0s);
+                if (withB)
+                    probe.setB(Bs);
+                if (withT)
+                {
+                    SpMat T(n, n);
+                    for (int i = 0; i < n; i++)
+                        T.insert(i, i) = 1.0 / std::max(0.5, std::fabs(Ad(i, i)));
+                    T.makeCompressed();
+                    probe.setPreconditioner(T);
+                }
+                BlockSizeRecorder rec;
+                Spectra::verif::sink() = &rec;
+                try
+                {
+                    probe.compute(200, tol);
+                }
+                catch (const std::exception&)
+                {
+                }
+                Spectra::verif::sink() = NULL;
+                for (size_t jj = 1; jj < rec.sizes.size(); jj++)
+                    if (rec.sizes[jj] >= 2 && rec.sizes[jj] < k)
+                    {
+                        m1 = (int) jj;
+                        break;
+                    }
+            }
+            run_call(AL, BL, m1, tol, withB, 1);
             run_call(AL, BL, 200, tol, withB, 2, 1);
             continue;
         }
